@@ -56,14 +56,15 @@ type LetDecl struct {
 }
 
 type Contract struct {
-	PkgPath  string
-	Key      string // RelString of the function within its package
-	Props    []string
-	Requires []Clause
-	Ensures  []Clause
-	Modifies []Clause
-	NoPanic  bool
-	Panics   []PanicSpec
+	PkgPath    string
+	Key        string // RelString of the function within its package
+	Props      []string
+	Requires   []Clause
+	Ensures    []Clause
+	Modifies   []Clause
+	NoPanic    bool
+	MayPanic   bool // run-time panics are not excluded: postconditions are about normal returns only
+	Panics     []PanicSpec
 	PanicsWith []Clause // predicate over `panicvalue` that every panic leaving the function satisfies
 	// PanicsOnly: function never returns normally under this condition
 	Loops         map[int]*LoopSpec
@@ -124,12 +125,12 @@ type ContractSet struct {
 }
 
 var reClauseLoop = regexp.MustCompile(`^loop#(\d+)\s+(invariant|decreases|use|assert)\s+(.*)$`)
-var reAt = regexp.MustCompile(`^at\s+(\S+)\s+(use|assert|set|setdef|bind)\s+(.*)$`)
+var reAt = regexp.MustCompile(`^at\s+(\S+)\s+(use|assert|assume|set|setdef|bind)\s+(.*)$`)
 var reLemma = regexp.MustCompile(`^lemma\s+([A-Za-z_][A-Za-z0-9_]*)\s*\((.*)\)\s*$`)
 var rePred = regexp.MustCompile(`^(?:pred|fun)\s+([A-Za-z_][A-Za-z0-9_]*)\s*\((.*?)\)\s*(?:[A-Za-z_.\[\]*]+\s*)?:=\s*(.*)$`)
 
 func clauseKeyword(s string) bool {
-	for _, k := range []string{"property ", "requires ", "ensures ", "modifies ", "no_panic", "panics_with ", "panics ", "decreases ", "loop#", "at ", "let ", "ghost ", "trusted", "inline", "noinline", "pure", "witness ", "assumes ", "dispatch ", "callback ", "reads_init "} {
+	for _, k := range []string{"property ", "requires ", "ensures ", "modifies ", "no_panic", "may_panic", "panics_with ", "panics ", "decreases ", "loop#", "at ", "let ", "ghost ", "trusted", "inline", "noinline", "pure", "witness ", "assumes ", "dispatch ", "callback ", "reads_init "} {
 		if strings.HasPrefix(s, k) {
 			return true
 		}
@@ -329,6 +330,9 @@ func (cs *ContractSet) parseFile(pkgPath, file string) error {
 			}
 		case t == "no_panic":
 			cur.NoPanic = true
+		case t == "may_panic":
+			cur.MayPanic = true
+			cur.Assumes = append(cur.Assumes, "partial correctness: run-time panics (nil dereference, index, slice bounds, conversion, division) are not excluded here; the postconditions are proved for every normal return")
 		case strings.HasPrefix(t, "panics_with "):
 			c, err := mk(t[12:])
 			if err != nil {
@@ -447,6 +451,9 @@ func (cs *ContractSet) parseFile(pkgPath, file string) error {
 					return fail(err)
 				}
 				cur.Hints[m[1]] = append(cur.Hints[m[1]], Hint{Kind: m[2], E: e, Src: part, Line: l.line})
+				if m[2] == "assume" {
+					cur.Assumes = append(cur.Assumes, "assumed without proof at "+m[1]+": "+strings.TrimSpace(part))
+				}
 			}
 		case strings.HasPrefix(t, "let "):
 			sp := strings.SplitN(t[4:], ":=", 2)
